@@ -416,6 +416,28 @@ func genC25Client(t *rapid.T) c25cCase {
 				cl = clsim.Call{API: "Disconnect"}
 			}
 			c.Steps = append(c.Steps, c25cOp{Call: &cl})
+		case k == 3:
+			// fragments of a QoS 2 delivery which share one message ID: PUBLISH copies with drawn DUP
+			// flags (the first copy may have been lost, so the first one seen may carry DUP=1), PUBRELs
+			mid := uint16(rapid.SampledFrom([]int{1, 2, 3, 0xffff}).Draw(t, "fmid"))
+			np := rapid.IntRange(0, 2).Draw(t, "fpublishes")
+			for j := 0; j < np; j++ {
+				p := snref.Pkt{Type: snref.PUBLISH, TIT: snref.TITShort, TopicID: snref.ShortID("ab"), QoS: 2, MsgID: mid, Data: []byte("q2"), DUP: rapid.Bool().Draw(t, "fdup")}
+				if rapid.IntRange(0, 3).Draw(t, "fregistered") == 0 {
+					p.TIT, p.TopicID = snref.TITNormal, uint16(rapid.SampledFrom([]int{1, 10, 0xffff}).Draw(t, "ftid"))
+				}
+				c.Steps = append(c.Steps, c25cOp{SN: &p, NoWait: rapid.IntRange(0, 3).Draw(t, "nowait") == 0})
+			}
+			for j := rapid.IntRange(1, 2).Draw(t, "fpubrels"); j > 0; j-- {
+				c.Steps = append(c.Steps, c25cOp{SN: &snref.Pkt{Type: snref.PUBREL, MsgID: mid}, NoWait: rapid.IntRange(0, 3).Draw(t, "nowait") == 0})
+			}
+		case k == 4 && len(c.Steps) > 0:
+			// a duplicated datagram: one of the gateway's earlier packets again
+			prev := c.Steps[rapid.IntRange(0, len(c.Steps)-1).Draw(t, "dupof")]
+			if prev.SN == nil {
+				continue
+			}
+			c.Steps = append(c.Steps, c25cOp{SN: prev.SN, NoWait: prev.NoWait})
 		default:
 			p := sngen.LegalPkt(t, sngen.AnyType().Draw(t, "type"))
 			if len(p.Data) > 300 {
@@ -440,7 +462,7 @@ func genC25Client(t *rapid.T) c25cCase {
 func TestC25Gateway(t *testing.T) {
 	vf.Check(t, vf.Prop[c25cCase]{
 		ID: "C25", Name: "hostile-gateway-to-client", Bubble: true, MarkCurrent: true,
-		Rule: "real client (with and without keep-alive) against a hostile gateway: 1-40 steps mixing decodable packets of all 28 types with generated fields (message and topic IDs from small pools so that they hit the client's own exchanges, reserved topic-ID type), API calls started and left in flight (Register, Subscribe, SubscribePredefined, Publish QoS 0-3, Unsubscribe, Sleep, Ping, Connect, Disconnect) and time advances across retry, keep-alive and the 1-minute sleep wait. Non-trivial = at least one gateway packet arrives while an API call is in flight; distinct by case.",
+		Rule: "real client (with and without keep-alive) against a hostile gateway: 1-40 steps mixing decodable packets of all 28 types with generated fields (message and topic IDs from small pools so that they hit the client's own exchanges, reserved topic-ID type), fragments of QoS 2 deliveries sharing one message ID (PUBLISH copies with drawn DUP flags, repeated PUBRELs, in any completeness), duplicated datagrams, API calls started and left in flight (Register, Subscribe, SubscribePredefined, Publish QoS 0-3, Unsubscribe, Sleep, Ping, Connect, Disconnect) and time advances across retry, keep-alive and the 1-minute sleep wait. Non-trivial = at least one gateway packet arrives while an API call is in flight; distinct by case.",
 		Assumptions: []string{"oracle: the test process survives (client goroutines have no recover); goroutines blocked for ever are C28's subject and are tolerated here"},
 		Gen:         genC25Client,
 		Run: func(c c25cCase) (r vf.Result) {
